@@ -254,6 +254,28 @@ Section SCProofs.
     rewrite (proj2 (bheqb_spec _ _) Hbh), (proj2 (heqb_spec _ _) Hbs). cbn [negb].
     rewrite Hbc, Nat.eqb_refl. reflexivity.
   Qed.
+  (* honest change sets of consecutive blocks, each synced over the result of the previous sync:
+     all accepted, and the db is the executed one: the new nodes of every block layered over the
+     previous db, latest first *)
+  Definition sc_honest (bh : bhash) (root : hash) (new : sc_db node) (b : sc_block hash bhash) : Prop :=
+    new <> [] /\ NoDup (map H new) /\
+    (forall n, In n new -> reach_d new root (length new) n) /\
+    (exists r, In r new /\ H r = root) /\
+    sb_hash b = bh /\ sb_state b = root /\ sb_count b = length new.
+
+  Lemma sc_honest_chain l : forall prev_db,
+    Forall (fun x => sc_honest (fst (fst x)) (snd (fst x)) (snd (snd x)) (fst (snd x))) l ->
+    sc_sync_chain node hash bhash heqb bheqb H children prev_db
+      (map (fun x => (fst (snd x), sc_new_change node hash bhash (fst (fst x)) (snd (fst x)) (snd (snd x)))) l)
+    = Some (fold_left (fun db x => snd (snd x) ++ db) l prev_db).
+  Proof.
+    induction l as [|[[bh root] [b new]] l IH]; intros prev_db Hall; [reflexivity|].
+    inversion Hall as [|? ? Hh Ht]; subst. cbn [fst snd] in Hh.
+    destruct Hh as (H1 & H2 & H3 & H4 & H5 & H6 & H7).
+    cbn [map sc_sync_chain fst snd fold_left].
+    rewrite (sc_honest_change_reproduces prev_db bh root new b H1 H2 H3 H4 H5 H6 H7). apply IH. exact Ht.
+  Qed.
+
   Lemma sc_reach_d_reach db root d n : reach_d db root d n -> reach db root n.
   Proof.
     induction 1 as [d n Hg|d p h n Hp IH Hc Hg]; [apply sc_reach_root; exact Hg|].
